@@ -344,6 +344,16 @@ class UserActions(object):
     for undo_action in reversed(undo_actions):
       self._do_doc_action(actions.action_from_repr(undo_action))
 
+    # Undo restores all values exactly as they were, including those of trigger-formula columns.
+    # Restoring the cells they depend on (e.g. when undoing a type conversion) must not cause them
+    # to recalculate, or values entered by hand would be replaced by the formula's result.
+    for table_id, table in self._engine.tables.items():
+      if table_id.startswith('_grist_'):
+        continue
+      for col_obj in table.all_columns.values():
+        if col_obj.has_formula() and not col_obj.is_formula():
+          self._engine.prevent_recalc(col_obj.node, list(table.row_ids), should_prevent=True)
+
   @useraction
   def Calculate(self):
     """
